@@ -1,4 +1,7 @@
 import Hertz.Model.Http1.RespRead
+import Hertz.Proofs.RespRoundtrip
+import Hertz.Proofs.RespTrailers
+import Hertz.Proofs.ReqDecodes
 /-!
 # C11 — client requests reach the server intact and responses come back intact
 
@@ -16,10 +19,46 @@ back with the same status, fields and body.
 
 Proved for all inputs:
 * `max_size_enforced`: with a positive `MaxResponseBodySize` no accepted response has a longer body;
-* `bodiless_status_no_body`: 1xx/204/304 responses never carry a body whatever framing fields they have.
+* `bodiless_status_no_body`: 1xx/204/304 responses never carry a body whatever framing fields they have;
+* `response_roundtrip` (reader ∘ writer = identity): for every well-formed response `r` (`RT.wfResp`:
+  status that may carry a body and fits an `int`, reason/values free of CR/LF and of blanks at either
+  end, generic fields with non-empty valid names in normalised form that are none of the eight names
+  the reader keeps in dedicated fields, body by `Content-Length` or chunked with pieces below `16^15`
+  bytes) and every `rest`, with the size limit off or not below the body length, under either end
+  behaviour, `readResponse (respWire r ++ rest)` is `r`'s status, dedicated fields, generic fields in
+  order (after the server's `Date` line), cookies, `Connection: close` flag and body, no trailers,
+  and leaves exactly `rest`.  `respWire` = C05 header model (`HW.RespHdr.bytes` after
+  `SetContentLength`) ++ C04 body model (`Resp.frame … .wire`).  Stages: `response_body_chunked`
+  (chunk reader ∘ chunk encoder, any accumulated prefix), `response_head_roundtrip` (status line and
+  ANY well-formed field list through `ReadHeaders`: the scanner sees exactly the fields written and
+  stops at the end of the head);
+* `chunk_size_limit_tight`: a chunk of `16^15` bytes or more is written with 16 hex digits, which
+  `ReadHexInt` (`maxHexIntChars` = 15) refuses - so the bound in `wfResp` cannot be relaxed
+  (not reachable in practice: 2^60 bytes);
+* `request_decodes`: for every well-formed request (`ReqDecodes.WfRequest`: token method, visible
+  target, token names, clean trimmed values, framing fields consistent with the body: none /
+  `Content-Length` = decimal length / `Transfer-Encoding: chunked` with pieces below `16^15` bytes and
+  well-formed trailer fields) the request writer model's bytes followed by any `rest` decode, with the
+  strict decoder `Spec.Http.decodeOne`, to the same method, target, fields (all of them, in order),
+  body and trailers, leaving exactly `rest`;
+* `response_roundtrip_trailers`: the same for a streamed (chunked) response that sets trailer fields
+  (`RT.wfRespT`: every trailer field well-formed, its name kept by `SetTrailers` - no comma, not one
+  of the forbidden trailer names - and not starting with `0`): the `Trailer:` declaration is read
+  back as exactly the names, the trailer section as exactly the fields, in order, duplicates included.
 
-TODO-OPEN: `response_roundtrip` (reader ∘ C04 writer model = identity) and `request_decodes` as Lean
-theorems; both are evaluated per explored case by the spec step.
+TODO-OPEN (not proved as theorems; evaluated per explored case by the spec step):
+* trailer names starting with `0`: in the model of `parseTrailer` this copy was built from ("skip any
+  0 length chunk": three bytes are skipped whenever the trailer part starts with `0`) such a field
+  cannot round-trip; `/repo` has since been repaired (commit "a trailer field whose name starts with
+  '0' no longer desynchronises the connection") and the model in /verif follows; the hypothesis
+  `kv.1.head? != some 48` in `wfRespT` is then stronger than needed (the proofs build unchanged
+  against the repaired `Model/Http1/Body.lean`);
+* `response_roundtrip` for bodiless statuses (1xx except 100, 204, 304: head only) and for the
+  read-until-close framing (no `Content-Length`, no chunking, `Connection: close`);
+* field names that are not in `normalizeKey` form when normalisation is on (the reader returns the
+  normalised name), values with blanks at the ends (the reader trims them): excluded by `wfResp`;
+* the hijacked chunked writer (`Resp.writerWire`) as a body source of `WResp` (its wire equals
+  `chunkedWire` of the non-empty writes; C04 `writer_body_decodes` covers the strict reader).
 Observed, outside the property (C05 covers CR/LF only): NUL and other control bytes in header values
 set by the application are written verbatim; net/http refuses such a request.
 -/
@@ -161,5 +200,84 @@ example :
      | .error .tooLarge => true | _ => false) = true ∧
     (match readResponse false 5 .eof [72,84,84,80,47,49,46,49,32,50,48,48,32,79,75,13,10,67,111,110,116,101,110,116,45,76,101,110,103,116,104,58,32,53,13,10,13,10,1,2,3,4,5] with
      | .ok r => r.body == [1,2,3,4,5] | _ => false) = true := by decide +kernel
+
+/-! ### reader ∘ writer = identity -/
+
+open Hertz.H1.RT in
+/-- stage 1 (body): the client's chunk reader on the writer's chunk encoding -/
+theorem response_body_chunked (e : End) (maxBody : Nat) (cs : List Bytes) (X dst : Bytes) (fuel : Nat)
+    (hc : ∀ c ∈ cs, c ≠ [] ∧ c.length < 16 ^ 15) (hf : cs.length < fuel)
+    (hm : maxBody = 0 ∨ dst.length + cs.flatten.length ≤ maxBody) :
+    readBodyChunked e maxBody fuel dst (H1.Resp.encodeChunks cs ++ H1.Resp.writeChunk [] ++ X) = .ok (dst ++ cs.flatten, X) :=
+  readBodyChunked_encode e maxBody cs X dst fuel hc hf hm
+
+example : (∀ c ∈ [[1, 2, 3], [4]], c ≠ ([] : Bytes) ∧ c.length < 16 ^ 15) ∧ [[1, 2, 3], [4]].length < 3 := by decide
+
+open Hertz.H1.RT in
+/-- stage 2 (head): `ReadHeaders` on a status line and any well-formed field list written by
+`appendHeaderLine` returns the status and (through the reader's field switch `applyHeader`) exactly
+the fields written, in order, and stops exactly at the end of the head. -/
+theorem response_head_roundtrip (dn : Bool) (e : End) (st : Nat) (reason : Bytes) (fs : List (Bytes × Bytes)) (X : Bytes)
+    (hst : st < 2 ^ 63) (h100 : st ≠ 100) (hr : ∀ x ∈ reason, x ≠ 13 ∧ x ≠ 10) (h : wfFields dn fs = true)
+    (herr : (scanned dn st fs).err = false) :
+    readHeaders dn e (statusLine st reason ++ Gen.Str.strCRLF ++ HW.block fs ++ X) =
+      .ok (finishHead (scanned dn st fs).head, X) :=
+  readHeaders_written dn e st reason fs X hst h100 hr h herr
+
+/-- non-vacuity: `X-Id: 7`, `Etag: "a b"` -/
+example : H1.RT.wfFields false [([88, 45, 73, 100], [55]), ([69, 116, 97, 103], [34, 97, 32, 98, 34])] = true := by
+  decide +kernel
+
+open Hertz.H1.RT in
+/-- the whole response -/
+theorem response_roundtrip (dn : Bool) (maxBody : Nat) (e : End) (r : WResp) (rest : Bytes)
+    (hw : wfResp dn r = true) (hmax : maxBody = 0 ∨ r.body.content.length ≤ maxBody) :
+    readResponse dn maxBody e (respWire r ++ rest) =
+      .ok { head := r.seenHead, body := r.body.content, trailers := [], rest := rest } :=
+  H1.RT.response_roundtrip dn maxBody e r rest hw hmax
+
+open Hertz.H1.RT in
+/-- corollary in the words of the property: status, fields and body as sent, rest untouched -/
+theorem response_roundtrip_view (dn : Bool) (maxBody : Nat) (e : End) (r : WResp) (rest : Bytes)
+    (hw : wfResp dn r = true) (hmax : maxBody = 0 ∨ r.body.content.length ≤ maxBody) :
+    ∃ res, readResponse dn maxBody e (respWire r ++ rest) = .ok res ∧
+      res.head.status = r.status ∧ res.head.h = r.seenFields ∧ res.head.contentType = r.contentType ∧
+      res.head.server = r.server ∧ res.head.cookies = r.cookies ∧ res.head.connClose = r.connClose ∧
+      res.body = r.body.content ∧ res.rest = rest :=
+  ⟨_, H1.RT.response_roundtrip dn maxBody e r rest hw hmax, rfl, rfl, rfl, rfl, rfl, rfl, rfl, rfl⟩
+
+/-- non-vacuity: `200 OK`, Server `hz`, Date `now`, Content-Type `t/p`, `X-Id: 7`, a cookie, `Connection: close`,
+body `hello` with Content-Length; and the same streamed in pieces `he`, ``, `llo` (chunked) -/
+example : H1.RT.wfResp false H1.RT.exFixed = true ∧ H1.RT.wfResp true H1.RT.exChunked = true := by
+  decide +kernel
+
+open Hertz.H1.RT in
+/-- a streamed response with trailer fields: status, fields, body AND the trailer fields come back -/
+theorem response_roundtrip_trailers (dn : Bool) (maxBody : Nat) (e : End) (r : WRespT) (rest : Bytes)
+    (hw : wfRespT dn r = true) (hmax : maxBody = 0 ∨ r.base.body.content.length ≤ maxBody) :
+    readResponse dn maxBody e (respWireT r ++ rest) =
+      .ok { head := r.seenHead, body := r.base.body.content, trailers := r.trailers, rest := rest } :=
+  H1.RT.response_roundtrip_trailers dn maxBody e r rest hw hmax
+
+example : H1.RT.wfRespT false H1.RT.exTrailers = true := by decide +kernel
+
+/-- the size bound on chunks in `wfResp` is tight: `WriteHexInt(16^15)` has 16 digits and is refused -/
+theorem chunk_size_limit_tight (e : End) (X : Bytes) :
+    parseChunkSize e (H1.Resp.writeHexInt (16 ^ 15) ++ 13 :: 10 :: X) = .error .bad :=
+  H1.RT.parseChunkSize_16digits e X
+
+/-! ### the request writer's bytes decode to the request -/
+
+open Hertz.ReqDecodes in
+theorem request_decodes (r : HW.ReqHdr) (b : ReqBody) (rest : Bytes) (h : WfRequest r b) :
+    Spec.Http.decodeOne (reqWire r b ++ rest) =
+      some ({ method := r.methodOrGet, target := reqTarget r, fields := r.fields, body := b.content,
+              trailers := b.trailers, foldedColon := false }, rest) :=
+  ReqDecodes.request_decodes r b rest h
+
+/-- non-vacuity: `POST /p` with User-Agent, Host, Content-Type, `Content-Length: 3`, `X-Y: 1 2`, a cookie,
+`Connection: close` and the body `xyz` -/
+example : ReqDecodes.WfRequest ReqDecodes.exPost (.fixed [120, 121, 122]) :=
+  ⟨by decide, by decide, ⟨ReqDecodes.appendUintDec_3.symm, by decide⟩⟩
 
 end Hertz.Props.C11
